@@ -708,4 +708,48 @@ def resolveTags (imgs : List ImgOut) : List Nat → Option (List ImgOut)
     | some o, some os => some (o :: os)
     | _, _ => none
 
+
+/-! ### the OpenAI-compatible entry: POST /v1/chat/completions → `openai.fromChatRequest` → ChatHandler -/
+
+/-- one element of an OpenAI message's content array -/
+inductive OPart
+  | text (c : List Piece)
+  | image (im : Img)
+  deriving DecidableEq, Repr
+
+/-- an OpenAI message: `content` is a string or an array of parts -/
+inductive OContent
+  | str (c : List Piece)
+  | parts (ps : List OPart)
+  deriving DecidableEq, Repr
+
+structure OMsg where
+  role : Role
+  content : OContent
+  deriving DecidableEq, Repr
+
+def partMsg (r : Role) : OPart → Msg
+  | .text c => ⟨r, c, []⟩
+  | .image im => ⟨r, [], [im]⟩
+
+/-- `fromChatRequest`, messages: a string content is one message; EVERY part of a content array becomes its
+    own message of the same role — a text part a message without images, an image part a message with no
+    text and exactly that image -/
+def fromOpenAIMsg (m : OMsg) : List Msg :=
+  match m.content with
+  | .str c => [⟨m.role, c, []⟩]
+  | .parts ps => ps.map (partMsg m.role)
+
+def fromOpenAI (l : List OMsg) : List Msg := l.flatMap fromOpenAIMsg
+
+def partImages : OPart → List Img
+  | .text _ => []
+  | .image im => [im]
+
+def omsgImages (m : OMsg) : List Img :=
+  match m.content with
+  | .str _ => []
+  | .parts ps => ps.flatMap partImages
+
+
 end OllamaVerif.Prompt
